@@ -98,7 +98,7 @@ def cases(tier, rnd, widen=False):
 
 def observe_impl(gs, text, index):
     """-> dict of observations on the real implementation"""
-    g1, g2, g3 = gs
+    g1, g2, g3 = gs[:3]
     obs = {}
     try:
         g1.parse(text)
@@ -129,16 +129,19 @@ def observe_impl(gs, text, index):
     except Exception as e:                     # noqa
         obs['error'] = f'exception:{type(e).__name__}'
     if all(ord(ch) < 256 for ch in text):
-        try:
-            g3.parse(text.encode('latin-1'))
-            obs['bytes'] = 'no-error'
-        except g3.PartialParseError as e:
-            p = e.last_position
-            msg = str(e)
-            k = msg.find(':\n')
-            obs['bytes'] = {'pos': [p.index, p.line, p.column], 'excerpt': msg[k + 2:]}
-        except Exception as e:                 # noqa
-            obs['bytes'] = f'exception:{type(e).__name__}'
+        for key, g in (('bytes', g3), ('bytes-error', gs[3])):
+            try:
+                g.parse(text.encode('latin-1'))
+                obs[key] = 'no-error'
+            except (g.PartialParseError, g.ParseError) as e:
+                p = e.last_position if isinstance(e, g.PartialParseError) else e.position
+                msg = str(e)
+                m = re.match(r'(?:Incomplete parse\. Unexpected input|Error) on line (\S+), column (\S+):\n', msg)
+                rest = msg[m.end():] if m else msg
+                obs[key] = {'pos': [p.index, p.line, p.column], 'excerpt': rest.split('\nFailed to parse the')[0],
+                            'header': [m.group(1), m.group(2)] if m else None}
+            except Exception as e:                 # noqa
+                obs[key] = f'exception:{type(e).__name__}'
     return obs
 
 
@@ -150,7 +153,8 @@ def run(R):
     R.prove('Props/C09.v')
     regen_and_tie(R)
     rnd = random.Random(R.seed)
-    gs = (Grammar('start = /[^X]*/'), Grammar('start = /[^X]*/ >> "Y"'), Grammar('start = b/[^X]*/'))
+    gs = (Grammar('start = /[^X]*/'), Grammar('start = /[^X]*/ >> "Y"'), Grammar('start = b/[^X]*/'),
+          Grammar('start = b/[^X]*/ >> 0x59'))
     R.assumptions += [
         'texts are ASCII; code points are modelled as natural numbers',
         'error index on a line-break character is outside the property and not generated',
@@ -193,16 +197,21 @@ def run(R):
                     judge_req.append(core.sx(['c09judge', index, core.codes(text), [o['pos'][1], o['pos'][2]],
                                               core.codes(o['excerpt'])]))
                     judge_meta.append((kind, case, o))
-            o = obs.get('bytes')
-            if isinstance(o, dict):
-                R.traces += 1
-                if o['pos'][0] != index or o['excerpt'] != repr(mbw):
-                    R.disagree('bytes', case, o, {'pos': index, 'excerpt': repr(mbw)})
-                want = text.encode('latin-1')[index:index + 1]
-                if o['pos'][0] != index or '\n' in o['excerpt'] or want.decode('latin-1') not in o['excerpt']:
-                    R.counterexample('bytes', 'bytes-window', case, 'single-line window containing text[index]', o)
-            elif o is not None:
-                R.disagree('bytes', case, o, {'pos': index})
+            for bkey in ('bytes', 'bytes-error'):
+                o = obs.get(bkey)
+                if isinstance(o, dict):
+                    R.traces += 1
+                    # bytes input is a single line: line 1, column index + 1, in the position and in the message
+                    one_line = [index, 1, index + 1]
+                    if o['pos'] != one_line or o['excerpt'] != repr(mbw) or o['header'] != ['1', str(index + 1)]:
+                        R.disagree(bkey, case, o, {'pos': one_line, 'excerpt': repr(mbw)})
+                    want = text.encode('latin-1')[index:index + 1]
+                    if o['pos'][0] != index or '\n' in o['excerpt'] or want.decode('latin-1') not in o['excerpt']:
+                        R.counterexample(bkey, 'bytes-window', case, 'single-line window containing text[index]', o)
+                    elif o['pos'] != one_line or o['header'] != ['1', str(index + 1)]:
+                        R.counterexample(bkey, 'bytes-single-line', case, {'pos': one_line, 'header': ['1', str(index + 1)]}, o)
+                elif o is not None:
+                    R.disagree(bkey, case, o, {'pos': index})
         for (kind, case, o), j in zip(judge_meta, core.run_driver(judge_req)):
             j = core.asdict(j)
             if j.get('linecol_ok') != 'true':
